@@ -280,7 +280,10 @@ class SdoClient {
     uint32_t off = 0; uint8_t t = 0;
     do {
       uint32_t n = std::min<uint32_t>(7, plen - off); bool last = off + n == plen;
-      Frame q; q.id = req_id; q.dlc = 8; q.d[0] = (uint8_t)((t << 4) | ((7 - n) << 1) | (last ? 1 : 0));
+      // CiA 301: "n = 0 if no segment size is indicated" - with the total size announced in the initiate a client may leave n = 0 in the last segment
+      // and the server takes the remainder from the announced size (decided from the fill seed: no extra tape choice)
+      bool no_n = last && size_ind && n < 7 && (fill_seed % 3) == 0; if (no_n) c.cls("last-segment-without-size-indication");
+      Frame q; q.id = req_id; q.dlc = 8; q.d[0] = (uint8_t)((t << 4) | ((no_n ? 0 : 7 - n) << 1) | (last ? 1 : 0));
       uint64_t f = fr.next(); for (int i = 0; i < 7; i++) q.d[1 + i] = (uint32_t)i < n ? b[off + i] : (uint8_t)(f >> (8 * i));   // any fill of the last segment
       Frame g = one(q, "download segment"); res.requests++; res.segments++;
       if (is_abort(g, idx, sub, res)) return res;
